@@ -48,6 +48,8 @@ def _base_configs():
                   iter="euler", constraints=dict(maxNonIsothermalDT=20)))
     c.append(dict(tag="strong-heat-cool", phases=[ph], D=1e-16, x0=0.03, xe0=0.01, se=2e-4, temp=("array", [0, H(50.0), H(100.0)], [1000, 1030, 970]),
                   calls=[(100.0, 0.01)], iter="euler", constraints=dict(maxNonIsothermalDT=20)))
+    c.append(dict(tag="depletion-below-mincomposition", phases=[ph], D=1e-14, x0=0.03, xe0=0.002, calls=[(10.0, 0.02), (10.0, 0.02)], iter="euler", cap=1200,
+                  constraints=dict(minComposition=0.012)))
     c.append(dict(tag="ramp-constructor", phases=[ph], D=1e-16, se=1e-5, temp=("array", [0, H(300.0)], [1000, 1010]), temp_via="constructor",
                   calls=[(300.0, 0.01)], iter="euler"))
     c.append(dict(tag="function-constructor", phases=[ph], D=1e-16, se=1e-5, temp=("function", [0, H(300.0)], [1000, 990]), temp_via="constructor",
